@@ -218,6 +218,18 @@ fn log10_list<const B: usize>(xs: &[u32]) {
         i += 1;
     }
 }
+/// log10 / checked_log10 / log(10) at 64 bits on powers of ten and their lower neighbours (where a rounded float logarithm is
+/// off by one): all three forms must give `want`. Concrete values (BOUNDED).
+fn log10_pow10_w64(cases: &[(u64, usize)]) {
+    let mut i = 0;
+    while i < cases.len() {
+        let x = Uint::<64, 1>::from_limbs([cases[i].0]);
+        let want = cases[i].1;
+        assert!(x.checked_log10() == Some(want), "checked_log10 == Some(floor(log10(x))) at 64 bits");
+        assert!(x.log10() == want, "log10 == floor(log10(x)) at 64 bits");
+        i += 1;
+    }
+}
 /// the panicking entry points called directly, on a few values
 fn log_direct<const B: usize>(pairs: &[(u32, u32)], tens: &[u32]) {
     let mut i = 0;
@@ -293,6 +305,8 @@ pub mod fl {
         #[cfg_attr(kani, kani::unwind(45))] fn c13_log_samples_w8_c() { log_pairs::<8>(&[(225, 15), (224, 15), (100, 10)]) }
         #[cfg_attr(kani, kani::unwind(45))] fn c13_log10_values_w4_a() { log10_list::<4>(&[1, 2, 3, 4, 5, 6, 7, 8, 9, 10, 11]) }
         #[cfg_attr(kani, kani::unwind(45))] fn c13_log10_values_w4_b() { log10_list::<4>(&[12, 13, 14, 15]) }
+        #[cfg_attr(kani, kani::unwind(70))] fn c13_log10_pow10_w64_a() { log10_pow10_w64(&[(999_999_999_999_999, 14), (1_000_000_000_000_000, 15)]) }
+        #[cfg_attr(kani, kani::unwind(70))] fn c13_log10_pow10_w64_b() { log10_pow10_w64(&[(9_999_999_999_999_999, 15), (99_999_999_999_999_999, 16), (u64::MAX, 19)]) }
         #[cfg_attr(kani, kani::unwind(45))] fn c13_log10_samples_w8_a() { log10_list::<8>(&[1, 9, 10, 11]) }
         #[cfg_attr(kani, kani::unwind(45))] fn c13_log10_samples_w8_b() { log10_list::<8>(&[99, 100, 101]) }
         #[cfg_attr(kani, kani::unwind(45))] fn c13_log10_samples_w8_c() { log10_list::<8>(&[200, 255]) }
